@@ -10,6 +10,8 @@
 #include <mutex>
 #include <sys/uio.h>
 #include <unistd.h>
+#include <dirent.h>
+#include <sys/stat.h>
 
 namespace sim {
 
@@ -94,7 +96,27 @@ void disk_remove(const std::string &path) {
     std::lock_guard<std::mutex> lk(g_mu);
     g_files.erase(path);
 }
+void disk_mkdirs(const std::string &dir) {
+    if (is_sim_path(dir.c_str()) || dir.compare(0, 4, "/sim") == 0) return;
+    std::string cur;
+    for (size_t i = 0; i <= dir.size(); ++i) {
+        if (i == dir.size() || dir[i] == '/') { if (!cur.empty()) ::mkdir(cur.c_str(), 0755); }
+        if (i < dir.size()) cur += dir[i];
+    }
+}
 void disk_clear_prefix(const std::string &prefix) {
+    if (!is_sim_path(prefix.c_str())) {
+        // real directory (C19 driver): remove the files directly inside it
+        DIR *d = ::opendir(prefix.c_str());
+        if (!d) return;
+        while (struct dirent *e = ::readdir(d)) {
+            if (e->d_name[0] == '.') continue;
+            std::string f = prefix + e->d_name;
+            ::unlink(f.c_str());
+        }
+        ::closedir(d);
+        return;
+    }
     HarnessScope hs;
     std::lock_guard<std::mutex> lk(g_mu);
     for (auto it = g_files.begin(); it != g_files.end();)
